@@ -20,6 +20,21 @@ pub struct Observer<Endpoint: Display> {
     message_id: Option<u16>,
 }
 
+#[cfg(coap_lite_verif)]
+impl<Endpoint: Display> Observer<Endpoint> {
+    /// Verification hook (read-only): confirmable notifications sent to this
+    /// observer since its last acknowledgement or registration.
+    pub fn verif_unacknowledged(&self) -> u64 {
+        u64::from(self.unacknowledged_messages)
+    }
+
+    /// Verification hook (read-only): message id of the notification that is
+    /// still waiting to be acknowledged, if any.
+    pub fn verif_pending_mid(&self) -> Option<u16> {
+        self.message_id
+    }
+}
+
 /// An observed resource.
 pub struct Resource<Endpoint: Display> {
     pub observers: Vec<Observer<Endpoint>>,
